@@ -148,7 +148,8 @@ func (acc *DB) ExecActive(addr, execaddr string, amount int64) (*types.Receipt, 
 
 // ExecTransfer 执行转帐
 func (acc *DB) ExecTransfer(from, to, execaddr string, amount int64) (*types.Receipt, error) {
-	if from == to {
+	// 同一账户的不同书写形式(eth地址大小写)也视为相同地址, 否则后保存的账户会覆盖先保存的账户
+	if string(address.FormatAddrKey(from)) == string(address.FormatAddrKey(to)) {
 		return nil, types.ErrSendSameToRecv
 	}
 	if !acc.CheckAmount(amount) {
@@ -184,7 +185,8 @@ func (acc *DB) ExecTransfer(from, to, execaddr string, amount int64) (*types.Rec
 
 // ExecTransferFrozen 从自己冻结的钱里面扣除，转移到别人的活动钱包里面去
 func (acc *DB) ExecTransferFrozen(from, to, execaddr string, amount int64) (*types.Receipt, error) {
-	if from == to {
+	// 同一账户的不同书写形式(eth地址大小写)也视为相同地址, 否则后保存的账户会覆盖先保存的账户
+	if string(address.FormatAddrKey(from)) == string(address.FormatAddrKey(to)) {
 		return nil, types.ErrSendSameToRecv
 	}
 	if !acc.CheckAmount(amount) {
